@@ -32,7 +32,7 @@ RULE = (
 )
 ASSUMPTIONS = [
     "vlib.tngrammar is a faithful rendition of the grammar in the property statement",
-    "names of thousands of tokens are generated too; the implementation's recursion per sibling / nesting level is recorded as open finding F10",
+    "names of thousands of tokens are generated too (the former recursion limit of the parser, finding F10, is repaired)",
 ]
 REQUIRED_TAGS = {"quick": ["accepted", "rejected"], "thorough": ["accepted", "rejected"]}
 
